@@ -386,8 +386,69 @@ func panicValOf(err error) (any, bool) {
 	return nil, false
 }
 
+// c02ErrorValuedReturn: a body whose NORMAL result happens to be a non-nil error value (result type error / any)
+// has returned normally: "never turn a normal return into a failure".
+func c02ErrorValuedReturn(r *sim.Run, which int) {
+	r.Case = "panic-capture"
+	val := fmt.Errorf("a value of type error, returned normally: %w", c02PanicErr)
+	names := [...]string{"try.Of[error]", "try.Of[any]", "future.Apply[error]", "future.Apply[any]"}
+	r.MixFingerprintS(names[which])
+	sim.NoteCase("C02 " + names[which])
+	check := func(ok bool, got any, desc string) {
+		r.Probe("error-valued-normal-returns")
+		if !ok {
+			r.Violate("normal-return-turned-failure", "%s with a body that returns the error value %q as its normal result gave %v, want a Success holding that value", names[which], val, desc)
+			return
+		}
+		if got != any(val) {
+			r.Violate("normal-return-turned-failure", "%s: Success holds %v, the body returned %v", names[which], got, val)
+		}
+	}
+	switch which {
+	case 0:
+		t := try.Of(func() error { return val })
+		check(t.IsSuccess(), t.OrZero(), fmt.Sprint(t))
+	case 1:
+		t := try.Of(func() any { return val })
+		check(t.IsSuccess(), t.OrZero(), fmt.Sprint(t))
+	default:
+		ex := &execSet{run: r}
+		ctx := ex.ctx(r.Choose(exKinds, "ex"))
+		var fe fp.Future[error]
+		var fa fp.Future[any]
+		r.Go("caller", func(t *sim.Task) {
+			if which == 2 {
+				fe = future.Apply(func() error { return val }, ctx...)
+			} else {
+				fa = future.Apply(func() any { return val }, ctx...)
+			}
+		})
+		r.RunToQuiescence()
+		if r.Failed() {
+			return
+		}
+		if which == 2 {
+			if !fe.IsCompleted() {
+				r.Violate("apply-not-completed", "%s: the future never completed", names[which])
+				return
+			}
+			check(fe.Value().IsSuccess(), fe.Value().OrZero(), fmt.Sprint(fe.Value()))
+		} else {
+			if !fa.IsCompleted() {
+				r.Violate("apply-not-completed", "%s: the future never completed", names[which])
+				return
+			}
+			check(fa.Value().IsSuccess(), fa.Value().OrZero(), fmt.Sprint(fa.Value()))
+		}
+	}
+}
+
 func c02Panics(r *sim.Run) {
 	r.Case = "panic-capture"
+	if w := r.Choose(12, "errorValued"); w < 4 {
+		c02ErrorValuedReturn(r, w)
+		return
+	}
 	kind := r.Choose(10, "panicKind")
 	names := [...]string{"try.Of", "try.Call", "try.CallUnit", "future.Apply", "future.Apply2", "future.Func0", "future.Func1", "future.Func2", "future.Func3", "future.Unit1"}
 	mode := r.Choose(3, "bodyMode") // 0 normal return, 1 returns error (where the signature allows), 2 panics
